@@ -182,6 +182,7 @@ struct Model {
     for (int i = 0; i < c.nseq; ++i) { const MSeq& s = st.s[c.seqs[i]]; for (int j = 0; j < s.n; ++j) st.e[s.pend[j]].soft_named = 1; }
   }
 
+  bool reentry = false;   // transient: inside the call a re-entrant tracer makes
   // status: 0 returned normally, 1 exception of the expectation propagates, 2 fatal report propagates
   int do_call(int obj, int fn, int a1, int a2, Outcome& o, bool top, std::string* result_out = nullptr) {
     std::vector<int> act = active_list(obj, fn);
@@ -220,6 +221,7 @@ struct Model {
     const Shape& sh = g_shapes[c.shape];
     std::string tr_prefix;
     bool tracing = st.ntracer > 0;
+    const int tidx = st.ntracer - 1;   // the tracer in effect when the call starts receives its record
     bool pushes_tracer = false;
     for (int i = 0; i < sh.nse; ++i) if (c.semode[i] == 4) pushes_tracer = true;
     // '~': the statement does not say which tracer gets the record of a call during which a new tracer is constructed (tracer index not compared)
@@ -290,6 +292,8 @@ struct Model {
       else if (result.compare(0, 2, "e:") == 0) t += "threw exception: what() = " + result.substr(2);
       else t += "threw unknown exception";
       o.traces.push_back(t);
+      // a tracer of kind 2 (user code) makes a mock call of its own for every record it receives - obj0.g(1) - which is traced like any other
+      if (tidx >= 0 && st.tracer_kind[tidx] == 2 && !reentry && st.obj_alive[0]) { reentry = true; std::string nres; do_call(0, G1, 1, 0, o, false, &nres); reentry = false; }
     }
     if (top) { o.retv = result; o.kind = status == 0 ? OK_ACCEPT : status == 1 ? OK_THROWN : OK_NESTED_FATAL; }
     if (result_out) *result_out = result;
